@@ -412,7 +412,12 @@ def simplifyRaw : Arg → Res (Bool × Arg)
         | _ => merge op l r
   | .neg v =>
     match v with
-    | .bin .sub l r => .ok (true, .bin .sub r l)
+    | .bin .sub l r =>
+      -- `*arg = Subtract{lhs: rhs, rhs: lhs}; neutralize_raw(arg)?; true`
+      match neutralizeRaw (.bin .sub r l) with
+      | .ok (_, a) => .ok (true, a)
+      | .err e => .err e
+      | .panic => .panic
     | .const c => if c = i64Min then .err (.overflow .negate) else .ok (true, .const (-c))
     | .str _ | .addr _ | .seq _ => .err (.badType v.ty .neg)
     | _ => .ok (false, .neg v)
